@@ -472,7 +472,7 @@ def main():
     rng = random.Random(chk.seed * 104729 + 13)
 
     async def go():
-        await cases(chk, rng, 1500 if chk.thorough else 220)
+        await cases(chk, rng, 9000 if chk.thorough else 220)
     asyncio.run(go())
     chk.assumptions = [
         "sqlglot's parser decides what the statements of a text are and which tables a query reads (find_tables / traverse_scope); the harness's "
